@@ -92,6 +92,7 @@ func vt(v reflect.Value, depth int) vtree {
 }
 
 type cutCase struct {
+	Kind     string // "prefix": P is a prefix of the full value; "grows": the result at the previous cut is a prefix of P; "complete": the full value is a prefix of P
 	Format   string
 	Doc      []byte
 	Cut      int
@@ -123,7 +124,7 @@ func checkC09(c *Check) {
 	docs := ioDocs(c, nd)
 	var cases []cutCase
 	var mu sync.Mutex
-	addCuts := func(format string, doc []byte, tmpl interface{}, tname string) {
+	addCuts := func(format string, doc []byte, tmpl interface{}, tname string, topContainer bool) {
 		un := func(b []byte) (interface{}, error) {
 			if format == "cbe" {
 				return ce.UnmarshalFromCBEDocument(b, tmpl, cfg)
@@ -137,6 +138,7 @@ func checkC09(c *Check) {
 			return // not a valid document for this template: C06 / C04's subject
 		}
 		ftree := valueTree(full)
+		var prev vtree
 		for k := 1; k < len(doc); k++ {
 			var part interface{}
 			var err error
@@ -157,9 +159,19 @@ func checkC09(c *Check) {
 					map[string]interface{}{"kind": "truncation", "format": format, "doc": hex.EncodeToString(doc), "cut": k, "template": tname, "what": "no error"})
 				continue
 			}
+			ptree := valueTree(part)
 			mu.Lock()
-			cases = append(cases, cutCase{format, doc, k, tname, valueTree(part), ftree})
+			cases = append(cases, cutCase{"prefix", format, doc, k, tname, ptree, ftree})
+			if prev != nil {
+				// completely decoded elements stay present: results only grow with the cut point
+				cases = append(cases, cutCase{"grows", format, doc, k, tname, prev, ptree})
+			}
+			if k == len(doc)-1 && topContainer {
+				// only the closing of the top-level container is missing: every element was completely decoded
+				cases = append(cases, cutCase{"complete", format, doc, k, tname, ftree, ptree})
+			}
 			mu.Unlock()
+			prev = ptree
 		}
 	}
 	var wg sync.WaitGroup
@@ -174,7 +186,7 @@ func checkC09(c *Check) {
 		d := d
 		wg.Add(1)
 		sem <- struct{}{}
-		go func() { defer wg.Done(); addCuts(d.Format, d.Doc, nil, "untyped"); <-sem }()
+		go func() { defer wg.Done(); addCuts(d.Format, d.Doc, nil, "untyped", d.TopContainer); <-sem }()
 	}
 	// typed templates
 	inner := &c09Inner{X: 7, Y: []string{"p", "q"}}
@@ -202,7 +214,7 @@ func checkC09(c *Check) {
 			format := format
 			wg.Add(1)
 			sem <- struct{}{}
-			go func() { defer wg.Done(); addCuts(format, doc, tmpl, fmt.Sprintf("%T", v)); <-sem }()
+			go func() { defer wg.Done(); addCuts(format, doc, tmpl, fmt.Sprintf("%T", v), true); <-sem }()
 		}
 	}
 	wg.Wait()
@@ -232,7 +244,9 @@ func checkC09(c *Check) {
 		pj, _ := json.Marshal(cs.P)
 		fj, _ := json.Marshal(cs.F)
 		c.AddTraces(int64(at))
-		c.Violation(fmt.Sprintf("partial result of %s document %x cut at byte %d (template %s) is not a prefix of the full value: partial %s, full %s", cs.Format, cs.Doc, cs.Cut, cs.Template, pj, fj),
+		what := map[string]string{"prefix": "is not a prefix of the full value", "grows": "lost elements that were present at the previous cut point (first = previous result, second = this result)",
+			"complete": "does not contain every element although only the closing of the top-level container is missing (first = full value, second = result)"}[cs.Kind]
+		c.Violation(fmt.Sprintf("partial result of %s document %x cut at byte %d (template %s) %s: %s vs %s", cs.Format, cs.Doc, cs.Cut, cs.Template, what, pj, fj),
 			map[string]interface{}{"kind": "truncation", "format": cs.Format, "doc": hex.EncodeToString(cs.Doc), "cut": cs.Cut, "template": cs.Template, "what": "not a prefix", "partial": cs.P, "full": cs.F})
 	} else {
 		machineryFail("ValueTrace failed: %s\n%s", res.ErrText, strings.Join(res.Tail, "\n"))
